@@ -243,7 +243,25 @@ func init() {
 // Writers re-register a small set of identifiers with uniquely marked trees;
 // each identifier has ONE writer whose marks increase, so versions are
 // comparable. Readers decode by key, id and fallback; parsers parse.
+var c13Texts = []string{
+	"obj.Name = jso.s|default(\"dflt\")|ifThen(jso.t)\nobj.Id = jso.{a|b|c}|ifThenElse(\"x\", jso.s2)\n",
+	"if jso.n == 5 {\nobj.Status = jso.m|default(7)\n} else {\nobj.Id = crc32(jso.s, \"lit\")\n}\n",
+	"for k, v := range jso.list {\nobj.Name = v.name|def(\"n/a\")\nif k == 2 {\nbreak\n}\n}\n",
+	"switch jso.kind {\ncase \"a\":\nobj.Id = jso.a|ifThen(\"A\")\ncase jso.other:\nobj.Id = \"o\"\ndefault:\nobj.Id = jso.z|default(jso.{p|q})\n}\n",
+	"for i := 0; i < jso.lim; i++ {\nobj.Status = i\nctx.v = jso.x|default(3)\n}\nobj.Ustate = atou(jso.u)\n",
+	"obj.Finance.AllowBuy = jso.flag == true ? jso.yes : jso.no\nobj.Cost = jso.{c1|c2}\n# a comment } with ; braces {\nobj.Id = testns::nothing\n",
+}
+var c13Dumps []string
+
 func runC13(cfg *runCfg) (*Summary, error) {
+	c13Dumps = c13Dumps[:0]
+	for _, t := range c13Texts {
+		tr, err := decoder.Parse([]byte(t))
+		if err != nil {
+			return nil, fmt.Errorf("C13 reference text rejected: %v: %q", err, t)
+		}
+		c13Dumps = append(c13Dumps, serNodes(decoder.VerifDumpTree(tr)))
+	}
 	sum := &Summary{Distribution: map[string]int{}}
 	sum.Rule = "W writer goroutines re-registering keys / ids / pairs with uniquely marked trees (one writer per identifier, marks increasing), R reader goroutines decoding them by key, id and fallback, P goroutines parsing, for W,R,P drawn from 1..8; oracle: no deadlock (watchdog), no panic, every decode of an identifier that has been registered runs a complete tree registered for it (marker in the identifier's set), markers seen by one reader for one identifier never decrease, and a decode that starts after a registration returned sees that registration or a later one. Thorough tier: the same under the race detector"
 	registerUserFuncs()
@@ -386,6 +404,19 @@ func runC13(cfg *runCfg) (*Summary, error) {
 						fail(fmt.Sprintf("parser: Parse of a two-rule text gave %v", err))
 						return
 					}
+					// texts that go through every part of the parser (modifier chains,
+					// coalesce groups, conditions, loops, switches): a concurrent Parse
+					// must give the tree the same text gives when parsed alone
+					ri := (k + p) % len(c13Texts)
+					t2, err2 := decoder.Parse([]byte(c13Texts[ri]))
+					if err2 != nil || t2 == nil {
+						fail(fmt.Sprintf("parser: concurrent Parse of a reference text failed: %v", err2))
+						return
+					}
+					if got := serNodes(decoder.VerifDumpTree(t2)); got != c13Dumps[ri] {
+						fail(fmt.Sprintf("parser: a concurrent Parse returned a tree different from the one the same text gives when parsed alone (text %q)", c13Texts[ri]))
+						return
+					}
 				}
 			}(p)
 		}
@@ -441,6 +472,12 @@ func runC11(cfg *runCfg) (*Summary, error) {
 	for i := 0; i < nProg; i++ {
 		o := genOpts{signals: true, loops: true, conds: true, switches: true, ctxvars: true, floats: false, userFns: false}
 		j := genJob(rng, o, 3+rng.intn(5), 3, sum.Distribution)
+		if i < len(c11Builtins) {
+			// every builtin getter and modifier, with values beyond one byte (an
+			// integer boxed into an interface allocates unless it is below 256)
+			j.Prog = c11Builtins[i]
+			sum.Distribution["builtin getter / modifier programs"]++
+		}
 		// D44: a JSON number that does not convert to its destination (a negative one
 		// into an unsigned field) makes strconv allocate an error value inside
 		// vector.Node.Uint although the decode succeeds (known finding); the documents
@@ -550,6 +587,15 @@ func runC11(cfg *runCfg) (*Summary, error) {
 		}
 	}
 	return sum, nil
+}
+
+var c11Builtins = []string{
+	"ts.I = atoi(jso.big)\nts.I64 = strToInt(\"105999\")\nobj.Status = atoi(jso.bigs)\nts.U64 = atou(jso.big)\nobj.Ustate = strToUint(\"70000\")\n",
+	"ts.S = itoa(jso.big)\nobj.Id = intToStr(st.Status)\nobj.Name = utoa(jso.big)\nts.B = uintToStr(st.Ustate)\n",
+	"ts.I64 = crc32(jso.s, jso.big, \"lit\")\nobj.Status = crc32(st.Id)\nobj.Finance.AllowBuy = atob(jso.t)\nobj.Finance.AllowBuy = strToBool(\"true\")\n",
+	"obj.Name = jso.nul|default(jso.s)\nobj.Id = jso.missing|def(\"dflt\")\nts.S = jso.t|ifThen(jso.s)\nts.B = jso.fl|ifThenElse(\"yes\", jso.s2)\nobj.Status = jso.z|default(jso.big)\n",
+	"for i := 250; i < 262; i++ {\nobj.Status = i\nts.I = i\n}\nfor k, v := range jso.a {\nts.I64 = atoi(v)\n}\n",
+	"ctx.x = jso.big\nobj.Status = x\nctx.y = 70000\nts.I = y\nif x == 70001 {\nts.U64 = atou(x)\n}\nswitch jso.big {\ncase 300:\nts.I = 1\ncase jso.big:\nts.I = atoi(jso.big)\n}\n",
 }
 
 func stripMinus(v *JV) {
